@@ -19,8 +19,14 @@ SHARDS = 16
 
 
 def design_checks(tier):
-    return [dict(module="KernMC", cfg="KernMC_quick.cfg" if tier == "quick" else "KernMC.cfg", workers=16,
-                 timeout=900 if tier == "quick" else 3000)]
+    # KernMC: writer core vs UFO precedence; KernSplitMC: script / direction split, bucket merging, bidi filter and
+    # registration vs the same reference -- `C05 \/ Known_C05_1` must hold, the strict config must fail (the signature is real)
+    if tier == "quick":
+        return [dict(module="KernMC", cfg="KernMC_quick.cfg", workers=16, timeout=900),
+                dict(module="KernSplitMC", cfg="KernSplitMC_strict.cfg", workers=8, timeout=300, expect_violation="C05_Strict")]
+    return [dict(module="KernMC", cfg="KernMC.cfg", workers=16, timeout=3000),
+            dict(module="KernSplitMC", cfg="KernSplitMC_quick.cfg", workers=16, timeout=3000),
+            dict(module="KernSplitMC", cfg="KernSplitMC_strict.cfg", workers=8, timeout=300, expect_violation="C05_Strict")]
 
 
 def cases(tier, seed):
